@@ -13,7 +13,7 @@ PROPERTY = "C03"
 LEVEL = "fault_enumeration"
 RULE = ("fault enumeration over authentic reference-built reply packets: every single-bit flip at every bit position and "
         "every truncation length through LAN.send on the simulated wire (followed by an honest exchange), every single-byte "
-        "substitution (255 values, or 9 masks in quick) and every position pair x {01,80,FF}^2 at the _Packet.decode seam. "
+        "substitution (all 255 values) and every position pair x {01,80,FF}^2 at the _Packet.decode seam. "
         "A case is (frame length, fault); all are non-trivial (each changes the packet)")
 ASSUMPTIONS = ["authentic packets are built by the reference codec", "truncation to zero bytes is not a TCP delivery and is excluded"]
 IP, PORT = "10.0.0.9", 6444
@@ -26,7 +26,7 @@ def lengths(tier):
 
 def bounds(tier):
     return {"frame_lengths": lengths(tier), "bit_flips": "all", "truncations": "1..n-1",
-            "substitutions": "all 255 values x every byte (2 lengths)" if tier == "thorough" else "9 masks x every byte",
+            "substitutions": "all 255 values x every byte",
             "pairs": "all position pairs x {01,80,FF}^2 on the 72-byte packet"}
 
 
@@ -132,8 +132,7 @@ def run_shard(shard, tier) -> Stats:
                 st.violation(f"exchange after truncated packet -> {r2[0]}", case, ("ok", [frame]), r2)
             st.ev((kind, n, k), r1[0], True)
     elif kind == "subst":
-        full = tier == "thorough" and n in (15, 33)
-        masks = range(1, 256) if full else [1, 2, 4, 8, 16, 32, 64, 128, 255]
+        masks = range(1, 256)
         for i in range(len(pkt)):
             for mask in masks:
                 m = bytearray(pkt)
